@@ -5,8 +5,9 @@ From GV Require Import Wal.ProofsFrame Wal.ProofsRecover Wal.ProofsDb Wal.Proofs
 Open Scope Z_scope.
 
 (** close + reopen reproduces the store exactly, for any number of cycles, for every history
-    of API calls outside the four finding classes — for any checksum with 32-bit values and any
-    record codec that carries the records this history logs *)
+    of API calls outside the three open finding classes (explicit checkpoints may be taken at
+    any point) — for any checksum with 32-bit values and any record codec that carries the
+    records this history logs *)
 Theorem clean_cycle : forall crc enc dec, crc_u32 crc -> forall cfg ss,
   no_crash ss = true -> forallb kclean (hist_flags crc enc dec cfg db_fresh ss) = true ->
   Forall (rec_ok enc dec) (hist_logs crc enc dec cfg db_fresh ss) ->
@@ -27,24 +28,28 @@ Theorem clean_cycle_real : forall cfg ss,
 Proof. exact clean_cycle_real_l. Qed.
 Print Assumptions clean_cycle_real.
 
-(** whatever directory is opened (any bytes in any file): if the open succeeds, every
-    identifier the replay created lies below the counters new identifiers are taken from *)
-Theorem reopen_ids_fresh : forall crc dec d st, db_open crc dec d = ROk st -> ids_fresh (db_store st).
+(** whatever directory is opened (any bytes in any file): if the open succeeds and no recovered
+    record creates the identifier u64::MAX (the id counters saturate there), every identifier
+    the replay created lies below the counters new identifiers are taken from *)
+Theorem reopen_ids_fresh : forall crc dec d rs st,
+  recover crc dec d = ROk rs -> Forall rec_ids_below rs -> db_open crc dec d = ROk st -> ids_fresh (db_store st).
 Proof. exact reopen_ids_fresh_l. Qed.
 Print Assumptions reopen_ids_fresh.
 
-Theorem reopen_new_ids : forall crc dec d st,
-  db_open crc dec d = ROk st ->
+Theorem reopen_new_ids : forall crc dec d rs st,
+  recover crc dec d = ROk rs -> Forall rec_ids_below rs -> db_open crc dec d = ROk st ->
   aget Z.eqb (snd (st_create_node (db_store st) [] 0)) (s_nodes (db_store st)) = None
   /\ aget Z.eqb (snd (st_create_edge (db_store st) 0 0 [] 0)) (s_edges (db_store st)) = None.
 Proof. exact reopen_new_ids_l. Qed.
 Print Assumptions reopen_new_ids.
 
-(** C05-K1: an explicit checkpoint while the log holds records no commit marker covers *)
-Theorem checkpoint_drops_pending_refuted : exists cfg ss,
-  no_crash ss = true /\ real_flags cfg ss = [mkK true false false false] /\ last_cycle_differs cfg ss.
-Proof. exists (engine_cfg MSync), w05_1. exact w05_1_l. Qed.
-Print Assumptions checkpoint_drops_pending_refuted.
+(** C05-K1 (repaired by 14ec16a): under the code before it an explicit checkpoint while the log
+    held records no commit marker covered lost them; the same history is clean now and its cycle exact *)
+Theorem checkpoint_drops_pending_pre_refuted : exists cfg ss,
+  no_crash ss = true /\ last_cycle_differs_pre cfg ss
+  /\ forallb kclean (real_flags cfg ss) = true /\ last_cycle_exact_b cfg ss = true.
+Proof. exists (engine_cfg MSync), w05_1. destruct w05_1_pre_l as [A B]. destruct w05_1_now_l as [C D]. auto. Qed.
+Print Assumptions checkpoint_drops_pending_pre_refuted.
 
 (** C05-K2: remove_node_property / remove_edge_property write no log record *)
 Theorem property_removal_not_logged_refuted : exists cfg ss,
@@ -77,5 +82,6 @@ Example clean_history_exists :
              ([ODeleteEdge 0; OCreateNode [sA]], EClose)] in
   no_crash ss = true /\ forallb kclean (real_flags (engine_cfg MSync) ss) = true
   /\ forallb (fun r => option_eqb record_eqb (dec_record_slice (enc_record r)) (Some r) && (lenZ (enc_record r) <? two32))
-             (real_logs (engine_cfg MSync) ss) = true.
-Proof. cbv zeta. split; [reflexivity|]. split; vm_compute; reflexivity. Qed.
+             (real_logs (engine_cfg MSync) ss) = true
+  /\ existsb is_commit (real_logs (engine_cfg MSync) [([OCreateNode [sA]; OCheckpoint], EClose)]) = true.
+Proof. cbv zeta. split; [reflexivity|]. split; [vm_compute; reflexivity|]. split; vm_compute; reflexivity. Qed.
